@@ -266,6 +266,8 @@ Definition take_field (env : senv) (n : N) (fs : list (N * val)) (f : N) : res v
   | _ => Err ESrc
   end.
 
+Definition is_any (t : ty) : bool := match t with TAny => true | _ => false end.
+
 (* takeOne on reflect.ValueOf(v) *)
 Definition take_one (env : senv) (v : val) (f : N) : res val :=
   match v with
@@ -277,7 +279,9 @@ Definition take_one (env : senv) (v : val) (f : N) : res val :=
         | None => Err EKey
         end
       else Err ESrc
-  | VPtr _ (Some (VStruct n fs)) => take_field env n fs f
+  | VPtr u (Some (VStruct n fs)) =>
+      (* a pointer to an interface ( *any ) is not followed: its Elem() is an interface value *)
+      if is_any u then Err ESrc else take_field env n fs f
   | VPtr _ _ => Err ESrc
   | VStruct n fs => take_field env n fs f
   | VInt _ | VStr _ => Err ESrc
@@ -437,6 +441,7 @@ Fixpoint assign (env : senv) (t : ty) (v : val) (p : path) (x : val) {struct p} 
       | v1 =>
           match unwrap v1 (is_nil_path rest) with
           | Some (isptr, u, VStruct n fs) =>
+              if isptr && is_any u then None else   (* *any: what it points to is an interface value *)
               match lookup_field env n f with
               | Some (true, ft) =>
                   let old := field_of ft (aget f fs) in
@@ -534,6 +539,61 @@ Definition run_stream (env : senv) (T : ty) (ds : list decl) (ckss : list checks
     match srcs with s :: _ => Ok s | [] => Err ESrc end
   else run_stream_from env T ds ckss srcs.
 
+(* ================================================================ static values *)
+
+(* WorkflowNode.SetStaticValue: constants put at target paths of the successor's input.
+   Compile (workflow.go) records their paths in the same trie after all AddInputs
+   (checkAndAddMappedPath: the order of the Go map is arbitrary, the check is order
+   independent) and, since fix F-C15j, validates every value against the input type
+   (validateStaticValues).  At request time the map of static values is merged into the
+   fan-in map before convertTo (Invoke) resp. arrives as one more chunk (Stream). *)
+Definition statics : Type := list (path * val).
+
+Fixpoint validate_statics (env : senv) (T : ty) (ss : statics) : bool :=
+  match ss with
+  | [] => true
+  | (to, v) :: ss' =>
+      match extract_ty env T to with
+      | SOk st sb =>
+          (if sb then match st with TAny => true | _ => false end else check_value st v)
+          && validate_statics env T ss'
+      | SErr => false
+      end
+  end.
+
+Definition all_targets (ds : list decl) : list path := List.concat (map decl_paths ds).
+
+Definition compile_s (env : senv) (T : ty) (ds : list decl) (ss : statics) : cres :=
+  match compile env T ds with
+  | CAccept cks =>
+      match ss with
+      | [] => CAccept cks
+      | _ =>
+          if overlap_check (all_targets ds ++ map fst ss)
+          then (if validate_statics env T ss then CAccept cks else CErrStatic)
+          else CErrOverlap
+      end
+  | e => e
+  end.
+
+Definition run_invoke_s (env : senv) (T : ty) (ds : list decl) (ss : statics) (ckss : list checks) (srcs : list val) : res val :=
+  match ss with
+  | [] => run_invoke env T ds ckss srcs
+  | _ =>
+      do ms <- edges_out env ds ckss srcs;
+      do m <- merge_maps (ms ++ [ss]) [];
+      convert_to env T m
+  end.
+
+Definition run_stream_s (env : senv) (T : ty) (ds : list decl) (ss : statics) (ckss : list checks) (srcs : list (list val)) : res (list val) :=
+  match ss with
+  | [] => run_stream env T ds ckss srcs
+  | _ =>
+      do vs <- run_stream_from env T ds ckss srcs;
+      do v <- convert_to env T ss;
+      Ok (vs ++ [v])
+  end.
+
 (* ================================================================ vocabulary of the theorems *)
 
 (* what a slot of static type [st] holds after the value [x] has been put into it: the nil
@@ -562,6 +622,3 @@ Fixpoint wfv (env : senv) (v : val) : bool :=
   end.
 
 Definition has_type (env : senv) (t : ty) (v : val) : bool := slot_ok t v && wfv env v.
-
-(* all target paths of a declaration list, in declaration order *)
-Definition all_targets (ds : list decl) : list path := List.concat (map decl_paths ds).
